@@ -38,6 +38,7 @@ namespace bloch::compiler {
             std::string className;  // non-empty when referring to a user-defined class
             std::vector<TypeInfo> typeArgs;
             bool isTypeParam = false;
+            bool isArrayLiteral = false;  // '{...}': no type of its own, but never a non-array
             bool isClass() const { return !className.empty(); }
         };
 
